@@ -209,17 +209,35 @@ def run_check(tier, seed):
 def simplex_part(run, tier):
     from prover import simplex
     r = run.rng
-    n = 250 if tier == 'quick' else 3000
+    n = 600 if tier == 'quick' else 6000
     exprs, meta = [], []
     for _ in range(n):
         nv = r.randint(1, 4)
         names = ['x%d' % i for i in range(nv)]
         cons = []
-        for _ in range(r.randint(1, 6)):
-            coeffs = [r.randint(-4, 4) if r.random() < 0.7 else 0 for _ in range(nv)]
-            if all(c == 0 for c in coeffs):
-                coeffs[r.randrange(nv)] = r.choice([1, -1, 2])
-            cons.append((coeffs, r.random() < 0.5, r.randint(-8, 8)))
+        if _ % 2 == 1:
+            # a box (lower / upper bounds on single variables) and a few rows that cut across it: pivoting has to bring
+            # variables into the basis whose own bounds are then at stake
+            nv = r.randint(2, 4)
+            names = ['x%d' % i for i in range(nv)]
+            for i in range(nv):
+                unit = [1 if j == i else 0 for j in range(nv)]
+                if r.random() < 0.8:
+                    cons.append((unit, True, r.randint(-2, 2)))
+                if r.random() < 0.8:
+                    cons.append((unit, False, r.randint(0, 5)))
+            for _k in range(r.randint(1, 3)):
+                coeffs = [r.choice([1, 1, -1, 2, 0]) for _j in range(nv)]
+                if sum(1 for c in coeffs if c) < 2:
+                    coeffs = [1] * nv
+                cons.append((coeffs, r.random() < 0.6, r.randint(-3, 9)))
+            r.shuffle(cons)
+        else:
+            for _k in range(r.randint(1, 6)):
+                coeffs = [r.randint(-4, 4) if r.random() < 0.7 else 0 for _j in range(nv)]
+                if all(c == 0 for c in coeffs):
+                    coeffs[r.randrange(nv)] = r.choice([1, -1, 2])
+                cons.append((coeffs, r.random() < 0.5, r.randint(-8, 8)))
         try:
             s = simplex.Simplex()
             for coeffs, ge, b in cons:
